@@ -204,7 +204,7 @@ def assemble(revs, root, junk=b'', infra_start=None, w=(1, 4, 2), upto=None, ent
         prev = xoff
         if upto is None or rn + 1 in upto:
             outs.append({'bytes': junk + body, 'hdr': len(junk), 'layout': layout_sx(len(body), xoff, secs, objs),
-                         'nrev': rn + 1})
+                         'nrev': rn + 1, 'maxid': maxid})
     return outs
 
 
